@@ -54,6 +54,9 @@ def run(ctx, rep):
     if wl and wo:
         import anchors as A_
         RD.check_query_readonly(fx, rep, "C10.reader", "cache", A_.method(fx, "cache::RemappedFrameIter", "next", trait="Iterator") + [wl, wo], "C10.reader")
+    # the synthetic-class file rule of the reader derives a file name from the class name: part of what a file "means"
+    import rules_C01 as R1_
+    R1_.check_extract_class_name(fx, rep, "C10.reader")
     LR.check_frame_comparators(fx, rep, "C10.reader")
     LR.check_class_lookup(fx, rep, "C10.reader")
     LR.check_remap_method(fx, rep, "C10.reader")
